@@ -56,6 +56,11 @@ func parseVerdict(out string) string {
 // solveRace runs all solvers on the file; the first definite (sat/unsat) answer wins.
 // If waitAll is set, all solvers are run to completion and their verdicts recorded.
 func solveRace(file string, timeoutS int, waitAll bool) SolveResult {
+	return solveRace2(file, "", timeoutS, waitAll)
+}
+
+// solveRace2 races the solvers on the query and, when given, on its alternative form (same satisfiability).
+func solveRace2(file, altFile string, timeoutS int, waitAll bool) SolveResult {
 	if !waitAll {
 		// stage 1: the usually fastest solver alone with a short budget (saves two process launches per goal)
 		t0 := time.Now()
@@ -77,10 +82,26 @@ func solveRace(file string, timeoutS int, waitAll bool) SolveResult {
 	}
 	ctx, cancel := context.WithCancel(context.Background())
 	defer cancel()
-	ch := make(chan one, len(solvers))
+	type job struct {
+		s    solverSpec
+		file string
+		tag  string
+	}
+	var jobs []job
 	for _, s := range solvers {
-		go func(s solverSpec) {
-			argv := s.argv(file, timeoutS)
+		jobs = append(jobs, job{s, file, ""})
+	}
+	if altFile != "" {
+		for _, s := range solvers {
+			jobs = append(jobs, job{s, altFile, "/inst"})
+		}
+	}
+	ch := make(chan one, len(jobs))
+	for _, j := range jobs {
+		go func(j job) {
+			s := j.s
+			s.name += j.tag
+			argv := s.argv(j.file, timeoutS)
 			t0 := time.Now()
 			cmd := exec.CommandContext(ctx, argv[0], argv[1:]...)
 			var buf bytes.Buffer
@@ -92,12 +113,12 @@ func solveRace(file string, timeoutS int, waitAll bool) SolveResult {
 				v = "cancelled"
 			}
 			ch <- one{s.name, v, buf.String(), time.Since(t0).Seconds()}
-		}(s)
+		}(j)
 	}
 	res := SolveResult{Verdict: "unknown", All: map[string]string{}}
 	decided := false
 	var firstOther *one
-	for range solvers {
+	for range jobs {
 		o := <-ch
 		res.All[o.name] = o.verdict
 		if (o.verdict == "sat" || o.verdict == "unsat") && !decided {
@@ -137,6 +158,7 @@ type Obligation struct {
 	Pos    string // source position (informational only)
 	Descr  string
 	SMT    string // full SMT-LIB text of the query
+	SMTAlt string // equisatisfiable second form (skolemised goal + explicit instances), raced with the first
 	Result SolveResult
 	// Expect: "" normal (unsat=discharged). "sat" for cover/vacuity goals (sat=ok).
 	Expect string
@@ -199,7 +221,12 @@ func dischargeAllOpt(obls []*Obligation, workDir string, timeoutS int, waitAll b
 				f = f[:190] + ".smt2"
 			}
 			os.WriteFile(f, []byte(o.SMT), 0o644)
-			o.Result = solveRace(f, timeoutS, waitAll)
+			alt := ""
+			if o.SMTAlt != "" {
+				alt = strings.TrimSuffix(f, ".smt2") + ".inst.smt2"
+				os.WriteFile(alt, []byte(o.SMTAlt), 0o644)
+			}
+			o.Result = solveRace2(f, alt, timeoutS, waitAll)
 			if o.Result.Verdict == "sat" {
 				o.Model = parseModel(o.Result.Output)
 			}
@@ -231,7 +258,11 @@ func dischargeAllOpt(obls []*Obligation, workDir string, timeoutS int, waitAll b
 				if len(f) > 200 {
 					f = f[:190] + ".smt2"
 				}
-				r := solveRace(f, timeoutS*3, true)
+				alt := ""
+				if o.SMTAlt != "" {
+					alt = strings.TrimSuffix(f, ".smt2") + ".inst.smt2"
+				}
+				r := solveRace2(f, alt, timeoutS*3, true)
 				if r.Verdict == "unsat" || r.Verdict == "sat" {
 					o.Result = r
 					if r.Verdict == "sat" {
